@@ -10,7 +10,7 @@ from .common import Check
 
 GEN_TARGETS = ['search', 'geoassignments', 'heapdict']
 GEN_TARGETS_EXH = GEN_TARGETS + ['exhaustive']     # properties whose theorems are also stated on the translated exhaustive_search
-GEN_TARGETS_ALL = GEN_TARGETS + ['exhaustive', 'greedy', 'results', 'design']   # ... and on the translated _greedy_search / search_results
+GEN_TARGETS_ALL = GEN_TARGETS + ['exhaustive', 'greedy', 'results', 'design', 'admission']   # ... and on the translated _greedy_search / search_results
 
 TRUSTED_BASE = [
     'Coq 8.16.1 kernel and vm_compute (no native_compute); primitive floats (PrimFloat) only in the executable '
@@ -24,7 +24,8 @@ TRUSTED_BASE = [
     'exhaustive_search and _greedy_search are translated on every run and proved equal to the hand-written models '
     '(proofs/ExhaustiveBridge.v, proofs/GreedyBridge.v; the greedy while loop with explicit fuel; dict reads default to the empty set, '
     'a KeyError is not modelled; sets are iterated in ascending order); search_results is translated too (proofs/ResultsBridge.v; geo_index[x] is an oracle, IndexError not modelled); '
-    'geos_within_constraints and the geo_assignments property are hand-modelled (model/Search.v); all are tied by executed correspondence; heapq contract; itertools.combinations order; CPython iteration order of small-int sets '
+    'geos_within_constraints and the geo index of the geo_assignments property are translated over their pandas selections '
+    '(oracles: too-large / over-budget / assignable / must-include sets and the impact order; proofs/AdmissionBridge.v); all are tied by executed correspondence; heapq contract; itertools.combinations order; CPython iteration order of small-int sets '
     '(ascending) -- relevant only when scores tie',
     'harness: kernel tables are computed with fresh TBRMMDiagnostics/TBRMMScore objects; floats in score tuples are '
     'replaced by dense ranks (order- and equality-preserving), NaN by None; threshold values are passed as exact binary64',
